@@ -2,8 +2,10 @@
 """Prints the prompt given to an independent sub-agent for one property (nothing from /verif but the property text)."""
 import json, sys
 pid = sys.argv[1]
-wt = f"/tmp/mut-{pid}"
-out = f"/tmp/mut-out/{pid}"
+rnd = sys.argv[2] if len(sys.argv) > 2 else ""          # "", "2", "3": later rounds get the earlier changes as an avoid-list
+focus = sys.argv[3] if len(sys.argv) > 3 else ""        # optional: clause(s) of the statement the changes should aim at
+wt = f"/tmp/mut{rnd}-{pid}"
+out = f"/tmp/mut-out{rnd}/{pid}"
 for l in open('/verif/properties.jsonl'):
     p = json.loads(l)
     if p['id'] == pid: break
@@ -33,3 +35,15 @@ How to build and test:
 Look at {wt}/test/*.cpp and {wt}/README.rst for how the API is used (simulation, default_config or your own sim::configuration, io_context per node, sockets, timers, queues).
 
 Verify everything yourself: with the change applied the whole existing test suite passes and your demo fails; with the change reverted (git -C {wt} checkout -- .) your demo passes. Finish with the worktree reverted to a clean state (git -C {wt} status shows no modifications; the build directory may stay). Your final message should list the two changes in one or two sentences each.""")
+if rnd:
+    import os
+    known = []
+    for d in sorted(os.listdir('/verif/seeded')):
+        if d.startswith(pid + '-'):
+            known.append(json.load(open(f'/verif/seeded/{d}/meta.json'))['summary'].split('\n')[0][:400])
+    if known:
+        print("\n\nOther people have already produced the following changes for this property; yours must be DIFFERENT in mechanism and in the code path they touch (prefer rarely exercised paths, interactions between two features, state that survives across operations, and boundary conditions other than simple off-by-one):")
+        for k in known: print(" - " + k)
+if focus:
+    print("\nAim your two changes at these parts of the statement, which earlier changes left untouched: " + focus)
+
